@@ -191,12 +191,20 @@ class UnitBuilder:
             for nm, (cname, t, init) in list(consts.items()):
                 ctx = self.base_ctx(ck)
                 ctx.consts = {k: (v[0], v[1]) for k, v in consts.items()}
-                ast = parse_body('return ' + init + ';', self._typenames(), self._templates())
-                e = ast[1][0][1]
-                txt = ctx.em(e)
-                if t == 'auto':
-                    t = ctx.typeof(e)
-                self.const_text.append('#define %s ((%s)(%s))' % (cname, ctx.ctype(t), txt))
+                try:
+                    ast = parse_body('return ' + init + ';', self._typenames(), self._templates())
+                    e = ast[1][0][1]
+                    txt = ctx.em(e)
+                    if t == 'auto':
+                        t = ctx.typeof(e)
+                    self.const_text.append('#define %s ((%s)(%s))' % (cname, ctx.ctype(t), txt))
+                except Exception as ex:     # noqa: an initialiser the extractor cannot render (e.g. a call of a constexpr helper)
+                    # the constant is poisoned instead of breaking every unit of the class: a unit that uses it does not compile
+                    # (extraction break = UNDECIDED for that unit), a unit that does not use it is unaffected
+                    if t == 'auto':
+                        t = 'size_t'
+                    self.const_text.append('/* static constexpr %s: initialiser not extractable (%s) */\n#define %s PGMV_UNEXTRACTABLE_CONSTANT_%s'
+                                           % (nm, str(ex).replace('*/', '* /')[:120], cname, cname))
                 consts[nm] = (cname, t)
 
     def _check_verbatim(self):
